@@ -84,6 +84,12 @@ def rhPre (s : Streams) (k : Nat) (h : HeadersIn) (st' : State) (isInitial : Boo
     s.incNumRecvStreams k
   else s
 
+/-- the `204` / `304` exemption of the END_STREAM check -/
+def statusNot204304 (h : HeadersIn) : Bool :=
+  match h.status with
+  | some st => st != Http.str "204" && st != Http.str "304"
+  | none => true
+
 /-- stage 2: `content-length` -/
 def rhCl (s : Streams) (k : Nat) (h : HeadersIn) : Streams × Option PErr :=
   if (s.stream k).contentLength != .head then
@@ -93,10 +99,7 @@ def rhCl (s : Streams) (k : Nat) (h : HeadersIn) : Streams × Option PErr :=
       | none => (s, some (PErr.libraryReset (s.stream k).id PROTOCOL_ERROR))
       | some cl =>
         let s := s.modStream k fun st => { st with contentLength := .remaining cl }
-        let statusNot204304 := match h.status with
-          | some st => st != Http.str "204" && st != Http.str "304"
-          | none => true
-        if h.eos && cl > 0 && statusNot204304 then (s, some (PErr.libraryReset (s.stream k).id PROTOCOL_ERROR)) else (s, none)
+        if h.eos && cl > 0 && statusNot204304 h then (s, some (PErr.libraryReset (s.stream k).id PROTOCOL_ERROR)) else (s, none)
     | _ => (s, none)
   else (s, none)
 
